@@ -198,7 +198,11 @@ def _drive(job):
                             elif own.size and abs(v - fdata[own[0]]) <= \
                                     1e-11*abs(v):
                                 codes.append(1)
-                            elif np.any(v == fdata):
+                            elif np.any((v == fdata) &
+                                        (np.abs(comp - f) > 1e-9*f)):
+                                # verbatim datum of a DIFFERENT frequency
+                                # (a computed frequency one ulp away from f
+                                # is the same frequency up to rounding)
                                 codes.append(2)
                             else:
                                 codes.append(3)
